@@ -19,6 +19,8 @@ The request target on the wire is `targetOf path qargs`; a followed redirect is 
 Location's query arguments ONLY (the previous arguments are dropped), with the same method and an empty body.
 Responses to HEAD (also to the hops of a redirected HEAD) and with status 1xx / 204 / 304 are bodiless whatever
 Content-Length / Transfer-Encoding they carry (`bodiless`; tree with the two `fix:` commits 3095720 and 041b28b).
+Interim `100 Continue` responses a server sends before a response (any number, RFC 7231 6.2.1) are read past by
+`Respondent.parseHead` and are not part of a `Resp`: the scripted servers of the correspondence run send 0–10 of them.
 Known finding kept in the model (C19-K1): a response cut short by the server closing
 (`framing = 3`) is never completed — `outcome = stuck`, `waited` stays true.
 The https→http refusal and a 3xx response without `Location` (tree after HttpParse's fix of F48/F49): `redirect()` raises,
@@ -41,6 +43,7 @@ structure Resp where
   body : Bytes
   framing : Nat          -- 0 Content-Length | 1 chunked | 2 until close | 3 Content-Length larger than what is sent, then close
   close : Bool
+  idleClose : Bool       -- if the client is idle after this exchange the server says `408` on its own and closes (bytes nobody asked for)
 deriving Repr, DecidableEq
 
 structure Req where
@@ -111,7 +114,7 @@ structure St where
   outcome : Outcome
 deriving Repr, DecidableEq
 
-def defaultResp : Resp := ⟨200, none, [], 0, false⟩
+def defaultResp : Resp := ⟨200, none, [], 0, false, false⟩
 
 def usedOf (port : Nat) (u : List (Nat × Nat)) : Nat := (u.lookup port).getD 0
 
@@ -178,6 +181,12 @@ def handle (servers : List Server) (s : St) (rp : Resp) : St :=
       else transmit servers s1 ⟨s1.cur.method, l.path, [], l.query⟩
   else finish s0 (some rp.status) rp.body false
 
+/-- a server that times out an idle client: when nothing is in process and nothing is queued after the exchange, the connection
+is dead from then on; the unsolicited bytes themselves answer nothing (tree with fix: what arrives while no request is in
+process is dropped) -/
+def afterIdle (rp : Resp) (s : St) : St :=
+  if rp.idleClose && !s.waited && s.queue.isEmpty then { s with alive := false } else s
+
 /-- `serviceResponse` -/
 def serviceResponse (servers : List Server) (arrived : Bool) (s : St) : St :=
   if !s.waited then s else
@@ -187,7 +196,7 @@ def serviceResponse (servers : List Server) (arrived : Bool) (s : St) : St :=
     if !arrived then s
     else if bodiless s.cur.method rp.status then
       -- the response ends at the blank line: Content-Length and Transfer-Encoding are ignored, no body byte is read
-      handle servers s { rp with body := [] }
+      afterIdle rp (handle servers s { rp with body := [] })
     else if rp.framing == 3 then
       -- server closed before the declared length was delivered: with nothing left unparsed the parser raises
       -- PrematureClosure (errored entry); with partial body bytes left it waits forever (C19-K1)
@@ -196,7 +205,7 @@ def serviceResponse (servers : List Server) (arrived : Bool) (s : St) : St :=
         if isRedirect rp.status then handle servers s rp
         else finish { s with inflight := s.inflight - 1, pending := none, alive := false } none [] true
       else { s with outcome := .stuck }
-    else handle servers s rp
+    else afterIdle rp (handle servers s rp)
 
 /-- one `Client.service()` -/
 def cycle (servers : List Server) (arrived : Bool) (s : St) : St :=
@@ -216,10 +225,10 @@ def init (secure : Bool) (port : Nat) (servers : List Server) (reqs : List Req) 
 /-- a second run on the same Client object: `client.reopen()` while idle, then more `client.request(...)` calls.
 `Client.request` fills what the caller leaves out from the requester's CURRENT fields (at the time of the call):
 `path = none` → the stored path, `qargs = none` → the stored query arguments.  (No theorem depends on this function.) -/
-def reopenAndQueue (servers : List Server) (s : St) (base : Nat) (more : List (Bytes × Option Bytes × Bytes × Option (List (Bytes × Bytes)))) : St :=
+def reopenAndQueue (servers : List Server) (reopen : Bool) (s : St) (base : Nat) (more : List (Bytes × Option Bytes × Bytes × Option (List (Bytes × Bytes)))) : St :=
   if s.waited || s.outcome != .running then s else
   let rs : List Req := more.map fun m => ⟨m.1, m.2.1.getD s.cur.path, m.2.2.1, m.2.2.2.getD s.cur.qargs⟩
-  { s with alive := (scriptOf servers s.port).isSome, pending := none,
+  { s with alive := if reopen then (scriptOf servers s.port).isSome else s.alive, pending := none,
            queue := s.queue ++ ((List.range rs.length).map (· + base)).zip rs }
 
 end Hio.Http.Cli
